@@ -1,5 +1,6 @@
 SPECIFICATION Spec
 CONSTANTS
+  MaxCalls = 3
   AsImplemented = TRUE
 INVARIANTS SuccsLive
 VIEW View
